@@ -426,6 +426,17 @@ func runCorr(rec *Rec, sc *CorrScenario, n int) {
 		r := new(Res)
 		return &Arg{Tag: tag, Pad: pad}, r, func() (string, string) { return r.Tag, r.Pad }
 	}
+	// what every completed call handed to its caller is kept, and looked at again when the whole workload is over:
+	// a status or reply metadata that belongs to a finished call must not change while later messages are received
+	type heldCall struct {
+		cmd   erpc.CallCmd
+		tag   string
+		code  int32
+		msg   string
+		rmeta string
+	}
+	var heldMu sync.Mutex
+	var held []heldCall
 	var wg sync.WaitGroup
 	var started, finished int64
 	// barrier profile: round i starts for all goroutines of a session at the same instant
@@ -510,6 +521,9 @@ func runCorr(rec *Rec, sc *CorrScenario, n int) {
 							rm = string(b)
 						}
 						rec.Emit("CallDone", "c", tag, "code", st.Code(), "msg", st.Msg(), "okres", rt == F(tag), "okpad", rp == pad, "okmeta", rm == ReplyMetaViewFor(tag), "rmeta", rm)
+						heldMu.Lock()
+						held = append(held, heldCall{cmd: cmd, tag: tag, code: st.Code(), msg: st.Msg(), rmeta: rm})
+						heldMu.Unlock()
 					}
 					atomic.AddInt64(&finished, 1)
 				}
@@ -535,5 +549,27 @@ func runCorr(rec *Rec, sc *CorrScenario, n int) {
 			last, stable = now, 0
 		}
 	}
+	changed, firstChanged := 0, ""
+	for _, h := range held {
+		st := h.cmd.Status()
+		rm := ""
+		if m := h.cmd.InputMeta(); m != nil {
+			var b []byte
+			m.VisitAll(func(k, v []byte) {
+				b = append(b, k...)
+				b = append(b, '=')
+				b = append(b, v...)
+				b = append(b, ';')
+			})
+			rm = string(b)
+		}
+		if st.Code() != h.code || st.Msg() != h.msg || rm != h.rmeta {
+			changed++
+			if firstChanged == "" {
+				firstChanged = fmt.Sprintf("%s: status %d/%q -> %d/%q, reply metadata %q -> %q", h.tag, h.code, h.msg, st.Code(), st.Msg(), h.rmeta, rm)
+			}
+		}
+	}
+	rec.Emit("Held", "calls", len(held), "changed", changed, "first", firstChanged)
 	rec.Emit("End", "started", atomic.LoadInt64(&started), "finished", atomic.LoadInt64(&finished), "enters", atomic.LoadInt64(&app.enters))
 }
